@@ -295,6 +295,84 @@ Proof.
   intros x1 y1 _ _. destruct (rcmp CLt x1 y1); lstep; [exact Hx|]. apply IH. assumption.
 Qed.
 
+(* ---- the acceptance event of the rejection-inversion loop on the model (C02) ---- *)
+Definition zipf_inv (pt : R) : R := if s_is_1 then zipf_inv_eq1 pt else zipf_inv_ne1 (dyR s) pt.
+
+Lemma zipf_invb_eval w (le : bool) pt :
+  word w -> evalX (u_std t w *. tt) = Xreal pt -> le = rcmp CLe pt 1 ->
+  evalX (if le then u_std t w *. tt
+         else if s_is_1 then eexp (u_std t w *. tt -. one) else epow (u_std t w *. tt *. oms +. se) q) = Xreal (zipf_inv pt)
+  /\ 0 <= pt < T.
+Proof.
+  intros Hw Ept Hle. pose proof HN1 as H1. pose proof T_ge_1 as HT.
+  pose proof (uR_std_range t w Hw) as Hu.
+  assert (pt = uR_std t w * T) as Hpt.
+  { cbn [evalX xbin] in Ept. rewrite u_std_eval, tt_eval in Ept. cbn in Ept. now injection Ept as <-. }
+  assert (0 <= pt < T) as Hr by (subst pt; nra). split; [|exact Hr].
+  unfold zipf_inv, zipf_inv_eq1, zipf_inv_ne1. unfold rcmp in Hle. destruct (Rle_dec pt 1) as [L|L]; subst le.
+  - destruct s_is_1; exact Ept.
+  - destruct s_is_1 eqn:E.
+    + unfold eexp. cbn [evalX xbin xun]. cbn [evalX xbin] in Ept. rewrite Ept, one_eval. reflexivity.
+    + pose proof (s_is_1_false E) as Hs1. unfold T in Hr.
+      assert (Hbase := zipf_inv_base_pos (IZR N) (dyR s) pt Hs1 Hs H1 ltac:(lra)).
+      unfold epow, q. cbn [evalX xbin]. cbn [evalX xbin] in Ept. rewrite Ept, oms_eval, one_eval.
+      unfold se. rewrite dyx_eval. rewrite Xdiv_nz by lra.
+      change (Xreal pt * Xreal (1 - dyR s) + Xreal (dyR s))%XR with (Xreal (pt * (1 - dyR s) + dyR s)).
+      rewrite Xpow_pos by exact Hbase. reflexivity.
+Qed.
+
+Lemma zipf_loop_event fuel : forall ws, Forall word ws ->
+  allout (fun r => exists P Y, 0 <= P < 1 /\ 0 <= Y < 1 /\ fst r = Zfloor (zipf_inv (P * T) + 1) /\ (1 <= fst r <= N)%Z /\
+                   Y < zipf_ratio (dyR s) (IZR (fst r)) (zipf_inv (P * T)))
+         nopanic (zipf_loop fuel t s_is_1 se oms q tt ws).
+Proof.
+  induction fuel as [|f IH]; intros ws Hw; [exact nopanic2|].
+  destruct ws as [|w ws]; cbn [zipf_loop]; lstep; [exact nopanic1|].
+  apply Forall_cons_iff in Hw. destruct Hw as [Hw0 Hws].
+  pose proof (uR_std_range t w Hw0) as HP.
+  intros pt y1 Ept Ey. rewrite one_eval in Ey. assert (y1 = 1) as -> by congruence. clear Ey.
+  destruct (zipf_invb_eval w (rcmp CLe pt 1) pt Hw0 Ept eq_refl) as [Einv Hr].
+  assert (pt = uR_std t w * T) as Hpt.
+  { cbn [evalX xbin] in Ept. rewrite u_std_eval, tt_eval in Ept. cbn in Ept. now injection Ept as <-. }
+  set (invb := if rcmp CLe pt 1 then u_std t w *. tt
+               else if s_is_1 then eexp (u_std t w *. tt -. one) else epow (u_std t w *. tt *. oms +. se) q) in * .
+  unfold sfloor. cbn [allout bind]. intros x0 Ex0.
+  assert (x0 = zipf_inv pt + 1) as Hx0.
+  { change (evalX (invb +. one)) with (Xadd (evalX invb) (evalX one)) in Ex0. rewrite Einv, one_eval in Ex0. cbn in Ex0. congruence. }
+  pose proof (zipf_proposal_range w (rcmp CLe pt 1) x0 pt Hw0 Ept eq_refl) as Hx.
+  assert (1 <= Zfloor x0 <= N)%Z as Hxr.
+  { apply Hx. exact Ex0. }
+  clear Hx. set (x := Zfloor x0) in * .
+  assert (1 <= IZR x) as HxR by (apply (IZR_le 1); lia).
+  (* value of the ratio *)
+  assert (Eratio : evalX (if (1 <? x)%Z then epow (num x) (eneg se) *. epow invb se else epow (num x) (eneg se))
+                   = Xreal (zipf_ratio (dyR s) (IZR x) (zipf_inv pt))).
+  { assert (E0 : evalX (epow (num x) (eneg se)) = Xreal (Rpower (IZR x) (- dyR s))).
+    { unfold epow, eneg, se. cbn [evalX xbin xun]. rewrite num_eval, dyx_eval. cbn [Xneg]. rewrite Xpow_pos by lra. reflexivity. }
+    unfold zipf_ratio. destruct (Z.ltb_spec 1 x) as [L|L].
+    - assert (1 < IZR x) by (apply (IZR_lt 1); exact L). destruct (Rlt_dec 1 (IZR x)); [|lra].
+      assert (1 <= zipf_inv pt) as Hi.
+      { assert (2 <= x)%Z as L2 by lia. apply (IZR_le 2) in L2.
+        pose proof (Zfloor_lb x0). fold x in H0. lra. }
+      change (evalX (epow (num x) (eneg se) *. epow invb se)) with (Xmul (evalX (epow (num x) (eneg se))) (Xpow (evalX invb) (evalX se))).
+      rewrite E0, Einv. unfold se. rewrite dyx_eval, Xpow_pos by lra. reflexivity.
+    - assert (IZR x <= 1) by (apply (IZR_le x 1); exact L). destruct (Rlt_dec 1 (IZR x)); [lra|]. exact E0. }
+  destruct ws as [|w2 ws2]; lstep; [exact nopanic1|]. apply Forall_cons_iff in Hws. destruct Hws as [Hw2 Hws2].
+  pose proof (uR_std_range t w2 Hw2) as HY.
+  intros yv rv Eyv Erv. rewrite u_std_eval in Eyv. assert (yv = uR_std t w2) as -> by congruence. clear Eyv.
+  fold invb in Erv. rewrite Eratio in Erv. assert (rv = zipf_ratio (dyR s) (IZR x) (zipf_inv pt)) as -> by congruence. clear Erv.
+  destruct (rcmp CLt (uR_std t w2) (zipf_ratio (dyR s) (IZR x) (zipf_inv pt))) eqn:R1; lstep; [|apply IH, Hws2].
+  unfold rcmp in R1. destruct (Rlt_dec (uR_std t w2) (zipf_ratio (dyR s) (IZR x) (zipf_inv pt))) as [G|]; [|discriminate].
+  cbv beta. cbn [fst]. exists (uR_std t w), (uR_std t w2). rewrite <- Hpt. rewrite <- Hx0.
+  split; [exact HP|]. split; [exact HY|]. split; [reflexivity|]. split; [exact Hxr|exact G].
+Qed.
+
+Theorem zipf_event ws : Forall word ws ->
+  allout (fun r => exists P Y, 0 <= P < 1 /\ 0 <= Y < 1 /\ fst r = Zfloor (zipf_inv (P * T) + 1) /\ (1 <= fst r <= N)%Z /\
+                   Y < zipf_ratio (dyR s) (IZR (fst r)) (zipf_inv (P * T)))
+         nopanic (zipf t n s ws).
+Proof. intros Hw. unfold zipf. apply zipf_loop_event. exact Hw. Qed.
+
 (* Zipf(n, s) for an integer n >= 1 and s >= 0: an integer in [1, n] (ideal model; the float program
    can return n + 1 on the largest draws: finding F6) *)
 Theorem zipf_support ws : Forall word ws ->
